@@ -1,7 +1,7 @@
 (* C11 — property theorems about the model of zip_bomb.py / zip_context.py.
    Only statements closed by `exact`, each followed by Print Assumptions. *)
 From Coq Require Import ZArith List Bool Lia.
-From S2T Require Import C11.Model C11.ProofsFloat C11.Proofs.
+From S2T Require Import C11.Model C11.ProofsFloat C11.Proofs C11.ModelNames C11.ProofsNames.
 Import ListNotations.
 Open Scope Z_scope.
 
@@ -160,3 +160,26 @@ Theorem C11_overflow_unrestricted_refuted :
     sizes_nonneg (files es) = true /\ validate L es = Overflow.
 Proof. exact overflow_witness. Qed.
 Print Assumptions C11_overflow_unrestricted_refuted.
+
+(* ---- what counts as a directory entry (round 3) ---- *)
+(* The guard's view of an entry is (name, sizes): a member is a directory iff its NAME ends with '/'
+   (zipfile.ZipInfo.is_dir); external_attr (DOS bit 0x10, unix S_IFDIR) and create_system are not read. *)
+Theorem C11_attrs_irrelevant :
+  forall (L : limits) (f : raw_entry -> Z * Z) (rs : list raw_entry),
+    validate_raw L (map (set_attrs f) rs) = validate_raw L rs.
+Proof. exact attrs_irrelevant. Qed.
+Print Assumptions C11_attrs_irrelevant.
+
+(* every member that zipfile would inflate as a file (name not ending in '/') is subject to the
+   per-entry clauses, whatever its attributes claim: if it breaks one, the container is rejected *)
+Theorem C11_file_member_never_ignored :
+  forall (L : limits) (rs : list raw_entry) (r : raw_entry),
+    limits_exact L = true -> sizes_nonneg (files (map entry_of rs)) = true ->
+    In r rs -> name_is_dir (r_name r) = false -> entry_violates L r ->
+    exists c, validate_raw L rs = Reject c.
+Proof. exact file_member_never_ignored. Qed.
+Print Assumptions C11_file_member_never_ignored.
+
+Theorem C11_trailing_slash_is_dir : forall n : list N, name_is_dir (n ++ [47%N]) = true.
+Proof. exact name_is_dir_slash. Qed.
+Print Assumptions C11_trailing_slash_is_dir.
